@@ -437,7 +437,7 @@ func (w *walker) visit(cell *boc.Cell, m *mnode, mode int, path string) error {
 	return nil
 }
 
-var treeCheck = &core.Check{Name: "c06/treewalk", Quick: 12000, Thorough: 1200000, Fn: func(c *core.Ctx) error {
+var treeCheck = &core.Check{Name: "c06/treewalk", Quick: 12000, Thorough: 1200000, Hang: caseHang, Fn: func(c *core.Ctx) error {
 	height := c.Weighted("height", 1, 1, 6, 4, 2)
 	b := &treeBuilder{c: c, budget: 40}
 	root, err := b.build(height, nil)
@@ -678,7 +678,7 @@ func makeDest(kind, capacity int, bits ref.Bits) (boc.BitString, error) {
 
 var destNames = []string{"NewBitString", "zero value", "ReadBits result", "parsed from Fift hex", "Copy"}
 
-var appendCheck = &core.Check{Name: "c06/append", Quick: 12000, Thorough: 1200000, Fn: func(c *core.Ctx) error {
+var appendCheck = &core.Check{Name: "c06/append", Quick: 12000, Thorough: 1200000, Hang: caseHang, Fn: func(c *core.Ctx) error {
 	dkind := c.Weighted("dst.kind", 8, 1, 1, 1, 1)
 	capacity := 0
 	switch c.Weighted("cap.kind", 2, 3) {
@@ -791,7 +791,7 @@ var appendCheck = &core.Check{Name: "c06/append", Quick: 12000, Thorough: 120000
 }}
 
 // tape: capacity, bits written, source length, source cursor
-var appendGridCheck = &core.Check{Name: "c06/appendgrid", Fn: func(c *core.Ctx) error {
+var appendGridCheck = &core.Check{Name: "c06/appendgrid", Hang: caseHang, Fn: func(c *core.Ctx) error {
 	capacity := c.Intn("cap", 18)
 	fill := c.Intn("fill", capacity+1)
 	n := c.Intn("n", 18)
